@@ -62,7 +62,7 @@ fn node_kinds(v: &J, out: &mut std::collections::BTreeSet<String>, depth: usize)
 
 impl Prop for C08 {
   fn id(&self) -> &'static str { "C08" }
-  fn rule(&self) -> String { "three strata: (1) the static corpus of 632 programs harvested from the repository's tests (one or more per grammar construct: every literal form, matrices / tables / records / maps / sets / tuples, every operator, ranges, subscripts, calls, defines with annotations, enums, functions, matches, state machines, comprehensions, comments), (2) generated composites of 1-12 typed statements, (3) every .mec document in the repository that parses (<= 24 KiB). For each: format(parse(s)) must parse, the second tree must equal the first after erasing source ranges and whitespace tokens, formatting the formatted text must be a fixed point, and for executable programs both trees must interpret to the same canonical result and symbols. Non-trivial = the source parsed and the formatter returned text".into() }
+  fn rule(&self) -> String { "four strata: (1) the static corpus of 632 programs harvested from the repository's tests (one or more per grammar construct: every literal form, matrices / tables / records / maps / sets / tuples, every operator, ranges, subscripts, calls, defines with annotations, enums, functions, matches, state machines, comprehensions, comments), (2) generated composites of 1-12 typed statements, (3) every .mec document in the repository that parses (<= 24 KiB), (4) systematic surface forms: chains of 1-2 (thorough: 3) subscripts from 9 subscript forms as read, assignment target, op-assignment target and formula operand; 46 binary operator spellings in 5 contexts; ordered operator pairs unparenthesised and with both parenthesisations; 18 unary forms (syntax only). For each: format(parse(s)) must parse, the second tree must equal the first after erasing source ranges and whitespace tokens, formatting the formatted text must be a fixed point, and for executable programs both trees must interpret to the same canonical result and symbols. Non-trivial = the source parsed and the formatter returned text".into() }
   fn assumptions(&self) -> Vec<String> { vec!["tree comparison: derived Serialize of the syntax tree with every src_range removed and whitespace-only tokens dropped; token text is compared after trimming".into(), "the semantic twin (interpret both trees) is only required when the original interprets successfully".into()] }
   fn floor(&self, tier: Tier) -> usize { if tier == Tier::Quick { 500 } else { 3000 } }
 
@@ -81,6 +81,32 @@ impl Prop for C08 {
       out.push(Case { id: format!("composite;n={}", i), cell: format!("composite;constructs={}", p.constructs()), input: json!({"src": src}) });
     }
     for (path, text) in corpus::mec_files(24 * 1024) { out.push(Case { id: format!("file;path={}", path), cell: format!("file;path={}", path), input: json!({"src": text, "file": true}) }); }
+    // systematic surface forms (parse -> format -> parse only needs them to parse): subscript chains in the three positions a
+    // chain can occur, every binary operator spelling, ordered operator pairs with both parenthesisations, unary operators
+    let subs = [".b", ".c", "[2]", "[1,2]", "[:]", "[1..=2]", ".1", "{\"k\"}", "[:,1]"];
+    let mut chains: Vec<String> = Vec::new();
+    for a in subs.iter() { chains.push(a.to_string()); for b in subs.iter() { chains.push(format!("{}{}", a, b)); if tier == Tier::Thorough { for c in subs.iter() { chains.push(format!("{}{}{}", a, b, c)); } } } }
+    for (i, ch) in chains.iter().enumerate() {
+      let depth = ch.matches(|c| c == '.' || c == '[' || c == '{').count();
+      for (fam, src) in [("subscript-read", format!("x := a{}", ch)), ("subscript-assign", format!("a{} = 5", ch)), ("subscript-opassign", format!("a{} += 1", ch)), ("subscript-in-formula", format!("x := a{} + b{}", ch, ch))] {
+        out.push(Case { id: format!("forms;family={};depth={};n={}", fam, depth, i), cell: format!("forms;family={};depth={}", fam, depth), input: json!({"src": src, "syntax_only": true}) });
+      }
+    }
+    let ops = ["+", "-", "*", "/", "^", "%", "**", "·", "⨯", "\\", "==", "!=", "<", "<=", ">", ">=", "⩵", "≠", "≤", "≥", "&&", "||", "^^", "⊻", "∧", "∨", "⊕", "∪", "∩", "∖", "⊆", "⊇", "⊊", "⊋", "⊂", "⊃", "∈", "∉", "⋈", "⟕", "⟖", "⟗", "⋉", "▷", "×", "÷"];
+    for (i, o) in ops.iter().enumerate() {
+      for (j, src) in [format!("x := a {} b", o), format!("x := a{}b", o), format!("x := (a {} b)", o), format!("x := [1 2 3] {} c", o), format!("f(a {} b)", o)].iter().enumerate() {
+        out.push(Case { id: format!("forms;family=binop;n={}.{}", i, j), cell: "forms;family=binop".into(), input: json!({"src": src, "syntax_only": true}) });
+      }
+    }
+    for (i, o1) in ops.iter().enumerate() { for (j, o2) in ops.iter().enumerate() {
+      if tier == Tier::Quick && (i * 7 + j * 3 + (seed as usize)) % 4 != 0 { continue; }
+      for (k, src) in [format!("x := a {} b {} c", o1, o2), format!("x := (a {} b) {} c", o1, o2), format!("x := a {} (b {} c)", o1, o2)].iter().enumerate() {
+        out.push(Case { id: format!("forms;family=binop-pair;n={}.{}.{}", i, j, k), cell: format!("forms;family=binop-pair;form={}", k), input: json!({"src": src, "syntax_only": true}) });
+      }
+    } }
+    for (i, src) in ["x := -a", "x := !a", "x := ¬a", "x := a'", "x := -a'", "x := -(a + b)", "x := !(a && b)", "x := (a + b)'", "x := -a ^ 2", "x := (-a) ^ 2", "x := -(a ^ 2)", "x := a ^ -b", "x := - a", "x := a'[1]", "x := -a[1]", "x := -f(a)", "x := !a.b", "x := a.b'"].iter().enumerate() {
+      out.push(Case { id: format!("forms;family=unary;n={}", i), cell: "forms;family=unary".into(), input: json!({"src": src, "syntax_only": true}) });
+    }
     out
   }
 
@@ -99,7 +125,7 @@ impl Prop for C08 {
     let f2 = match guarded(|| Formatter::new().format(&t2)) { Ok(f) => f, Err(p) => return Outcome::violated("format-panic", format!("formatting the formatted text `{}` panicked: {}", shown(&f1), p)) };
     if f2 != f1 { return Outcome::violated("not-idempotent", format!("`{}` -> `{}` -> `{}`", shown(src), shown(&f1), shown(&f2))); }
     // semantic twin
-    if !is_file {
+    if !is_file && case.input.get("syntax_only").is_none() {
       let mut a = Sess::new(); let ra = a.eval_tree(&t1);
       if let Ev::Ok(va) = &ra {
         let mut b = Sess::new(); let rb = b.eval_tree(&t2);
